@@ -63,7 +63,8 @@ impl Config {
             workers: a.usize_or("workers", 4),
             mutators: a.usize_or("mutators", 1),
             ops: a.u64_or("ops", 20000),
-            seed: a.seed(),
+            // --fixed-seed pins the program of a known-finding shard whatever seed the driver derives
+            seed: a.get("fixed-seed").and_then(vcommon::parse_u64).unwrap_or(a.seed()),
             stress: a.usize_or("stress", 0),
             scenario: a.str_or("scenario", "general"),
             layout: a.str_or("layout", "default"),
